@@ -20,6 +20,7 @@ r4 = load_tsv("RESULTS_round4.tsv")
 r5 = load_tsv("RESULTS_round5.tsv")
 r6 = load_tsv("RESULTS_round6.tsv")
 r7 = load_tsv("RESULTS_round7.tsv")
+r8 = load_tsv("RESULTS_round8.tsv")
 def verdict(rs, own):
     mine = [x for x in rs if x["check"] == own]
     if not mine: return "not run"
@@ -39,15 +40,23 @@ for d in sorted(glob.glob(os.path.join(ROOT, "seeded", "C??-*")), key=lambda x: 
     files = sorted(set(re.findall(r"^\+\+\+ b/(\S+)", open(d + "/patch.diff").read(), re.M)))
     old = json.load(open(d + "/meta.json")) if os.path.exists(d + "/meta.json") else {}
     n = int(id.split("-")[1])
-    rnd = 7 if n >= 13 else 6 if n >= 11 else 5 if n >= 9 else (4 if n >= 7 else (3 if n >= 5 else (2 if n >= 3 else 1)))
-    first = old.get("checks_run", {}).get("first_round") if rnd == 1 else verdict({2: r2, 3: r3, 4: r4, 5: r5, 6: r6, 7: r7}[rnd].get(id, []), id.split("-")[0])
+    rnd = 8 if n >= 14 else 7 if n >= 13 else 6 if n >= 11 else 5 if n >= 9 else (4 if n >= 7 else (3 if n >= 5 else (2 if n >= 3 else 1)))
+    first = old.get("checks_run", {}).get("first_round") if rnd == 1 else verdict({2: r2, 3: r3, 4: r4, 5: r5, 6: r6, 7: r7, 8: r8}[rnd].get(id, []), id.split("-")[0])
     meta = {"id": id, "property": id.split("-")[0], "round": rnd, "title": title, "files_touched": files,
-            "origin": "written by an independent sub-agent that was given only the property text and a scratch git worktree of /repo (nothing from /verif)" + ("; second round, after the checks had been strengthened against the first 40" if rnd == 2 else ("; third round, after two rounds of strengthening" if rnd == 3 else ("; fourth round, after three rounds of strengthening" if rnd == 4 else ("; fifth round, after four rounds of strengthening" if rnd == 5 else ("; sixth round, after five rounds of strengthening" if rnd == 6 else ("; seventh round (one change per property), after six rounds of strengthening" if rnd == 7 else "")))))),
+            "origin": "written by an independent sub-agent that was given only the property text and a scratch git worktree of /repo (nothing from /verif)" + ("; second round, after the checks had been strengthened against the first 40" if rnd == 2 else ("; third round, after two rounds of strengthening" if rnd == 3 else ("; fourth round, after three rounds of strengthening" if rnd == 4 else ("; fifth round, after four rounds of strengthening" if rnd == 5 else ("; sixth round, after five rounds of strengthening" if rnd == 6 else ("; seventh round (one change per property), after six rounds of strengthening" if rnd == 7 else ("; eighth round (session 9: two changes aimed at the code between the ledger and the cost report, after the ledger-to-report bridge theorems were added)" if rnd == 8 else ""))))))),
             "change": sec("Change"), "what_goes_wrong": sec("What goes wrong"),
             "needs_to_manifest": sec("Needs in order to manifest") or sec("Needs, in order to manifest") or sec("Needed to manifest") or sec("Needs"),
             "why_tests_miss": sec("Why the existing tests do not notice") or sec("Why the tests do not notice"),
             "confirmed_by_me": {"how": "tools/seed_verify.sh in a scratch worktree of /repo: patch applies; cargo test --workspace --no-fail-fast --offline with the patch; the demonstration (tests/demo_test.rs or demo.sh, public API / CLI only) with and without the patch", **ver},
             "checks_run": {"how": "tools/seed_run.sh: git -C /repo apply patch.diff; ./check <pid> (quick tier, seed 1); git -C /repo checkout -- .",
                            "first_round": first, "final_round": final.get(id, [])}}
+    def hsec(*names):   # notes written with "## heading" sections
+        for nm in names:
+            m = re.search(r"^##\s*" + nm + r"[^\n]*\n(.*?)(?=^##\s|\Z)", notes, re.S | re.M)
+            if m: return re.sub(r"\s+", " ", m.group(1)).strip()[:1500]
+        return ""
+    if not meta["change"]: meta["change"] = hsec("The change")
+    if not meta["what_goes_wrong"]: meta["what_goes_wrong"] = hsec("What goes wrong")
+    if not meta["needs_to_manifest"]: meta["needs_to_manifest"] = hsec("What it needs")
     json.dump(meta, open(d + "/meta.json", "w"), indent=1)
 print("ok")
